@@ -119,6 +119,22 @@ class HistIO(Hist):
             except ModelError as e:
                 self.violate('C16', 'roundtrip', f'uninterpretable:{why}', str(e))
                 return
+        # decoding is a function of the bytes: the caller may change the circuit it got and decode the same bytes again
+        try:
+            lab = 'zz_caller_edit'
+            dec.add_inputs([lab])
+            dec.mark_as_output(lab)
+            if dnet.gates:
+                dec.rename_gate(next(iter(dnet.gates)), 'zz_renamed')
+            dec2 = cenc.decode_circuit(data)
+            d2, _ = observe.snap(dec2)
+            if not observe.same_view(d2, dnet):
+                self.violate('C16', 'roundtrip', 'second-decode-differs', 'decoding the same bytes again (after the caller edited the first result) gives a different circuit')
+                return
+            st.bump('codec:second-decode-checked')
+        except Exception as e:  # noqa
+            self.violate('C16', 'roundtrip', f'second-decode-raised:{exc_name(e)}', f'{exc_name(e)}: {e}')
+            return
         # probe (not judged): truncated encodings handed to decode_circuit
         if data and rng.random() < 0.3:
             k = rng.randrange(len(data))
@@ -383,6 +399,10 @@ class HistIO(Hist):
                             self.violate('C16', 'db', 'stored-circuit-differs', f'get_by_label({label}) does not compute the stored truth table')
                             return
                         st.bump('db:get-after-add-checked')
+                        if rng.random() < 0.5 and gnet.outputs:
+                            # the caller edits what it got (as get_by_raw_truth_table does when it denormalises)
+                            got.set_outputs([])
+                            got.add_inputs(['zz_caller_edit'])
                     elif act == 'save-reopen':
                         if not opened:
                             self._expect_raise(lambda: db.save(io.BytesIO()), 'CircuitDatabaseNotOpenedError', 'save on closed db')
@@ -476,6 +496,11 @@ class HistIO(Hist):
                 text = s.real.format_circuit()
                 if via == 'string':
                     back = C.from_bench_string(text)
+                    if rng.random() < 0.3:
+                        # the caller edits the parsed circuit and parses the same text again
+                        back.add_inputs(['zz_caller_edit'])
+                        back.mark_as_output('zz_caller_edit')
+                        back = C.from_bench_string(text)
                 else:
                     import cirbo.core.parser.bench as pb
 
